@@ -67,7 +67,11 @@ PROP = dict(
         "duplicate-spelling programs: an outer set or dictionary of 13-19 members holding the same mixed-kind union set, tuple with a "
         "set attribute, dictionary or relation in 2-3 member orders / literal forms (also as dictionary keys): count, =, &, <:, "
         "call, |, printed text; these and the reducers are evaluated 3 resp. 2 times inside each process (observable 'unstable' if "
-        "two evaluations differ) and compared across the N processes"],
+        "two evaluations differ) and compared across the N processes",
+        "bucket-union programs (1 in 12 of the Ex cases): a small generic set united with a dictionary (2-3 entries in non-sorted "
+        "literal order, or 12-16 entries) and up to three of: a relation, an array with holes, a byte array, an offset string - "
+        "also under with / => . / {x}; printed text and CLI output against the model, twice in-process and across processes. The "
+        "JSON/YAML encoders are not exercised"],
     level_text="Proof (partial): 19 Lean theorems over the C06 representation model. C07 / C07_printed: every admissible program, nested "
                "to any depth over | & &~ where with without count {x}, => and orderby (element functions ., constant, (a: .), "
                "(a: ., b: n), [.]; orderby under NoTies), rank (rank = number of strictly smaller keys, ties included) and set "
